@@ -84,6 +84,37 @@ def explore(res, rng, n):
         beta, pf, u, x = outs['hlrf']
         if not np.allclose(nat.getX(u)[0], x, rtol=1e-9, atol=1e-9):
             fail(res, 'x* is not the Nataf image of u*', case, None)
+    # ---- nonlinear limit states: whenever a method returns, g(x*) = 0, x* = T(u*), |beta| = |u*|, pf = Phi(-beta), and the two
+    # algorithms agree when both return (a ValueError for non-convergence is an admissible outcome)
+    nl = [('parabola-two-cycle', 2, lambda X: 3.0 - X[0] + X[1] ** 2 / 2, [lambda X: -1.0, lambda X: X[1]], [stats.norm(), stats.norm()], np.eye(2)),
+          ('parabola-convex', 2, lambda X: 3.0 - X[0] - 0.1 * X[1] ** 2, [lambda X: -1.0, lambda X: -0.2 * X[1]], [stats.norm(), stats.norm()], np.eye(2)),
+          ('product-lognormal', 2, lambda X: X[0] * X[1] - 0.3, [lambda X: X[1], lambda X: X[0]], [stats.lognorm(0.5), stats.lognorm(0.3)],
+           np.array([[1.0, 0.4], [0.4, 1.0]])),
+          ('cubic', 2, lambda X: 2.5 - X[0] + 0.05 * X[1] ** 3, [lambda X: -1.0, lambda X: 0.15 * X[1] ** 2], [stats.norm(), stats.norm(0, 1)], np.eye(2)),
+          ('sum-gumbel-expon', 2, lambda X: 12.0 - X[0] - X[1], [lambda X: -1.0, lambda X: -1.0], [stats.gumbel_r(1.0, 1.0), stats.expon(scale=1.5)],
+           np.array([[1.0, -0.3], [-0.3, 1.0]]))]
+    for nm, d, g, dg, dists, R in nl:
+        case = {'problem': nm}
+        res.evaluations += 1
+        res.stat('nonlinear_' + nm)
+        got = {}
+        for meth, call in (('hlrf', lambda: rrm.hlrfFORM(d, g, dg, dists, R.tolist())), ('hlrf_numgrad', lambda: rrm.hlrfFORM(d, g, None, dists, R.tolist())),
+                           ('copt', lambda: rrm.coptFORM(d, g, dists, R.tolist()))):
+            try:
+                got[meth] = call()
+            except ValueError:
+                res.stat('nonlinear_not_converged')
+                continue
+            beta, pf, u, x = got[meth]
+            natn = rpm.NatafTransformation(dists, R.tolist())
+            if abs(g(x)) > 1e-4:
+                fail(res, f'{meth}: returned design point is not on the limit state', case, {'g(x*)': float(g(x)), 'beta': float(beta)})
+            if not np.allclose(natn.getX(u)[0], x, rtol=1e-8, atol=1e-8):
+                fail(res, f'{meth}: x* is not the Nataf image of u*', case, None)
+            if abs(abs(beta) - float(np.linalg.norm(u))) > 1e-6 or abs(pf - stats.norm.cdf(-beta)) > 1e-12:
+                fail(res, f'{meth}: |beta| != |u*| or pf != Phi(-beta)', case, [float(beta), float(np.linalg.norm(u)), float(pf)])
+        if 'hlrf' in got and 'copt' in got and abs(got['hlrf'][0] - got['copt'][0]) > 2e-3:
+            fail(res, 'the two FORM algorithms disagree', case, [float(got['hlrf'][0]), float(got['copt'][0])])
     # ---- one variable, any marginal: pf = F(c)
     fams = [stats.norm(1, 2), stats.lognorm(0.5), stats.lognorm(1.0), stats.expon(scale=2.0), stats.gamma(3.0), stats.gamma(0.8), stats.uniform(0, 4),
             stats.weibull_min(2.0, scale=2.0), stats.weibull_min(0.7), stats.gumbel_r(1.0, 2.0), stats.gumbel_l(0.0, 1.0)]
